@@ -287,7 +287,9 @@ EXTRA = {
            "points), C, D (to depletion), E (single entry), F (A's length, depleted after a few steps), two scheduled runs, a simulate that is rejected for a wrong-length schedule "
            "(must leave no trace) and one rejected for a pressure far outside the table, resim (the stored time array passed back) and bufB (the stored array overwritten with grid B and passed again), rf, rf(density), interpolator; also a two-object product exploration (same / mixed class, two "
            "single-phase fluids), a 60-node 128-level configuration, every history up to depth 2/3 over {simA, simB, setF, setP, rf, rf(density), interpolator} in "
-           "fresh interpreters in several orders (process-global state), and full-edge conformance with the TLC-checked model.",
+           "fresh interpreters in several orders (process-global state), and full-edge conformance with two TLC-checked models: Reservoir.tla (16 states, 128 edges) and the wider "
+           "ReservoirExt.tla (field reassignment between runs and the two rejected simulate calls: 112 states, 1232 edges, invariants NeverStale / CleanMeansCurrent); every edge of both dumped state graphs "
+           "is replayed on a real object (observation bitwise against fresh objects + refinement mapping of vars(obj)).",
     "C11": " Also: Fluid.gas_FVF / gas_viscosity, unsorted arrays of 64 and 1000 pressures from 1 psia, one Fluid object whose "
            "pressure array is updated in place between calls.",
     "C12": " Also: continuity to 1e-13 + 20 x relative distance from p_b, the array forms on one array straddling p_b, Standing's "
